@@ -59,3 +59,31 @@ Theorem C01_fifo_from_init :
 Proof. exact Fifo.FIFO_init. Qed.
 Print Assumptions C01_fifo_from_init.
 
+(** THREE-STAGE end-to-end statement (Proofs/Fifo3.v): what the consumer obtains at position p is the value pushed at p with exactly the
+    worker's edits recorded for p, in order; edits only touch published-but-unreleased positions; released positions never change *)
+Require MRB.Proofs.Fifo3.
+Theorem C01_fifo3 :
+  forall (h : list Types.op) (a : Pipe.pipe), Fifo3.Inv3 a -> List.forallb Fifo3.fifo3_op h = true -> snd (Pipe.srun a h) = true -> let a' := Fifo.sfinal a h in Types.tP (Pipe.ppos a') = Types.tP (Pipe.ppos a) + length (Fifo.accepted a h) /\ Types.tC (Pipe.ppos a') = Types.tC (Pipe.ppos a) + length (Fifo.consumed a h) /\ Fifo.consumed a h = ListAux.sub (Pipe.tape a') (Types.tC (Pipe.ppos a)) (Types.tC (Pipe.ppos a') - Types.tC (Pipe.ppos a)) /\ (forall p : nat, p < Types.tP (Pipe.ppos a') -> List.nth p (Pipe.tape a') BinNums.N0 = Fifo3.expected a h p) /\ Fifo.consumed a h = List.map (Fifo3.expected a h) (List.seq (Types.tC (Pipe.ppos a)) (length (Fifo.consumed a h))) /\ (forall (q : nat) (e : Fifo3.wedit), List.In (q, e) (Fifo3.edits a h) -> Types.tW (Pipe.ppos a) <= q < Types.tP (Pipe.ppos a')) /\ Types.tC (Pipe.ppos a') <= Types.tW (Pipe.ppos a') /\ Types.tW (Pipe.ppos a') <= Types.tP (Pipe.ppos a') /\ Types.tP (Pipe.ppos a') - Types.tC (Pipe.ppos a') <= Pipe.slen a - 1.
+Proof. exact Fifo3.FIFO3. Qed.
+Print Assumptions C01_fifo3.
+
+Theorem C01_fifo3_discipline :
+  forall (h1 : list Types.op) (o : Types.op) (h2 : list Types.op) (a : Pipe.pipe), Fifo3.Inv3 a -> List.forallb Fifo3.fifo3_op (h1 ++ o :: h2) = true -> snd (Pipe.srun a (h1 ++ o :: h2)) = true -> let a1 := Fifo.sfinal a h1 in let a' := Fifo.sfinal a (h1 ++ o :: h2) in (forall (q : nat) (e : Fifo3.wedit), List.In (q, e) (Fifo3.edits1 a1 o) -> Types.tC (Pipe.ppos a1) <= Types.tW (Pipe.ppos a1) /\ Types.tW (Pipe.ppos a1) <= q < Types.tP (Pipe.ppos a1)) /\ Fifo.consumed1 a1 o = ListAux.sub (Pipe.tape a1) (Types.tC (Pipe.ppos a1)) (length (Fifo.consumed1 a1 o)) /\ Types.tC (Pipe.ppos a1) + length (Fifo.consumed1 a1 o) <= Types.tW (Pipe.ppos a1) /\ (forall j : nat, j < length (Fifo.accepted1 a1 o) -> List.nth (Types.tP (Pipe.ppos a1) + j) (Pipe.tape (fst (Pipe.sstep a1 o))) BinNums.N0 = List.nth j (Fifo.accepted1 a1 o) BinNums.N0) /\ (forall p : nat, p < Types.tW (Pipe.ppos a1) -> List.nth p (Pipe.tape a') BinNums.N0 = List.nth p (Pipe.tape a1) BinNums.N0) /\ Types.tW (Pipe.ppos a1) <= Types.tW (Pipe.ppos a').
+Proof. exact Fifo3.FIFO3_discipline. Qed.
+Print Assumptions C01_fifo3_discipline.
+
+Theorem C01_fifo3_model :
+  forall (m : Seq.mstate) (a : Pipe.pipe) (h : list Types.op), Rel.Rel m a -> Pipe.shasW a = true -> Pipe.sowned a = false -> Types.tP (Pipe.sdet a) = false -> Types.tW (Pipe.sdet a) = false -> Types.tC (Pipe.sdet a) = false -> List.forallb Fifo3.fifo3_op h = true -> snd (Pipe.srun a h) = true -> let a' := fst (fst (Pipe.srun a h)) in snd (Seq.run m h) = snd (fst (Pipe.srun a h)) /\ Rel.Rel (fst (Seq.run m h)) a' /\ Fifo3.consumed_outs h (snd (Seq.run m h)) = Fifo.consumed a h /\ Types.tP (Pipe.ppos a') = Types.tP (Pipe.ppos a) + length (Fifo.accepted a h) /\ Types.tC (Pipe.ppos a') = Types.tC (Pipe.ppos a) + length (Fifo.consumed a h) /\ Fifo.consumed a h = ListAux.sub (Pipe.tape a') (Types.tC (Pipe.ppos a)) (Types.tC (Pipe.ppos a') - Types.tC (Pipe.ppos a)) /\ (forall p : nat, p < Types.tP (Pipe.ppos a') -> List.nth p (Pipe.tape a') BinNums.N0 = Fifo3.expected a h p) /\ Fifo.consumed a h = List.map (Fifo3.expected a h) (List.seq (Types.tC (Pipe.ppos a)) (length (Fifo.consumed a h))) /\ (forall (q : nat) (e : Fifo3.wedit), List.In (q, e) (Fifo3.edits a h) -> Types.tW (Pipe.ppos a) <= q < Types.tP (Pipe.ppos a')) /\ Types.tC (Pipe.ppos a') <= Types.tW (Pipe.ppos a') /\ Types.tW (Pipe.ppos a') <= Types.tP (Pipe.ppos a') /\ Types.tP (Pipe.ppos a') - Types.tC (Pipe.ppos a') <= Pipe.slen a - 1.
+Proof. exact Fifo3.FIFO3_rel. Qed.
+Print Assumptions C01_fifo3_model.
+
+Theorem C01_fifo3_from_init :
+  forall (c : Types.config) (a : Pipe.pipe) (h : list Types.op), Pipe.a_init c = Some a -> Types.c_worker c = true -> Types.c_owned c = false -> List.forallb Fifo3.fifo3_op h = true -> snd (Pipe.srun a h) = true -> let a' := fst (fst (Pipe.srun a h)) in Fifo.consumed a h = List.map (fun k : nat => Fifo3.apply_edits (Fifo3.edits_at k (Fifo3.edits a h)) (List.nth k (Fifo.accepted a h) BinNums.N0)) (List.seq 0 (length (Fifo.consumed a h))) /\ length (Fifo.consumed a h) <= length (Fifo.accepted a h) /\ length (Fifo.accepted a h) - length (Fifo.consumed a h) <= length (Types.c_init c) - 1 /\ Types.tP (Pipe.ppos a') = length (Fifo.accepted a h) /\ Types.tC (Pipe.ppos a') = length (Fifo.consumed a h) /\ Types.tC (Pipe.ppos a') <= Types.tW (Pipe.ppos a') /\ Types.tW (Pipe.ppos a') <= Types.tP (Pipe.ppos a') /\ (forall (q : nat) (e : Fifo3.wedit), List.In (q, e) (Fifo3.edits a h) -> q < length (Fifo.accepted a h)).
+Proof. exact Fifo3.FIFO3_init. Qed.
+Print Assumptions C01_fifo3_from_init.
+
+Theorem C01_fifo3_no_edits :
+  forall (c : Types.config) (a : Pipe.pipe) (h : list Types.op), Pipe.a_init c = Some a -> Types.c_worker c = true -> Types.c_owned c = false -> List.forallb Fifo3.fifo3_op h = true -> snd (Pipe.srun a h) = true -> Fifo3.edits a h = nil -> Fifo.consumed a h = List.firstn (length (Fifo.consumed a h)) (Fifo.accepted a h).
+Proof. exact Fifo3.FIFO3_init_no_edits. Qed.
+Print Assumptions C01_fifo3_no_edits.
+
